@@ -4,6 +4,7 @@ package main
 import (
 	"crypto/tls"
 	"fmt"
+	"github.com/tmpim/casket/caskethttp/httpserver"
 	"net"
 	"net/http"
 	"os"
@@ -33,7 +34,8 @@ var settings = []setting{
 	{"clients-request", "clients request", tls.VersionTLS12, tls.VersionTLS13, 0, "request"},
 }
 
-var hostMenu = []string{"a.test", "b.a.test", "*.test", "*.a.test", ""}
+// (the last one is a site named by an IP literal: no client sends such a name in its hello, so it is reached only by Host)
+var hostMenu = []string{"a.test", "b.a.test", "*.test", "*.a.test", "", "10.9.8.7"}
 var snis = []string{"a.test", "A.TEST", "b.a.test", "c.test", "x.y.test", "nomatch.example", ""}
 
 type clientRange struct {
@@ -93,7 +95,7 @@ type c06case struct {
 
 func main() {
 	rep := kit.NewReport("C06", "exploration",
-		"site sets of <=3 hosts (third site: 3 settings in quick, all 7 in thorough) from {a.test, b.a.test, *.test, *.a.test, catch-all} x 7 per-site tls settings (version ranges, one cipher, client-certificate policies) x 7 SNI names x 4 client version ranges x client certificate yes/no, real crypto/tls handshakes over in-memory pipes against Server.TLSConfig, then a request with every site's name as Host header through Server.ServeHTTP; plus session tickets obtained under one site offered to another (4x4 client-certificate policies x TLS 1.2/1.3 x 3 client certificates x both orders), and listener groups mixing TLS with plaintext sites and same-name sites with different settings (must be rejected); distinct_nontrivial = outcome classes")
+		"site sets of <=3 hosts (third site: 3 settings in quick, all 7 in thorough) from {a.test, b.a.test, *.test, *.a.test, catch-all, an IP literal} x 7 per-site tls settings (version ranges, one cipher, client-certificate policies) x 7 SNI names x 4 client version ranges x client certificate yes/no, real crypto/tls handshakes over in-memory pipes against Server.TLSConfig, then a request with every site's name as Host header through Server.ServeHTTP; plus session tickets obtained under one site offered to another (4x4 client-certificate policies x TLS 1.2/1.3 x 3 client certificates x both orders), a client-CA file replaced between loads, and listener groups mixing TLS with plaintext sites and same-name sites with different settings (must be rejected); distinct_nontrivial = outcome classes")
 	kit.Init()
 	kit.Log.Off.Store(true)
 	dir := kit.TempDir("c06")
@@ -361,6 +363,7 @@ func main() {
 		return true
 	})
 	resumption(rep, dir, ca, caFile, clientPair, certs)
+	caRotation(rep, dir, ca, clientPair, certs)
 	// invalid listener groups: every sequence of 2..3 sites on one port with at least one TLS and at least one
 	// plaintext site (written `tls off` or with the http:// scheme), in every order
 	type badCf struct{ name, cf string }
@@ -581,4 +584,86 @@ func resumption(rep *kit.Report, dir string, ca *kit.CA, caFile string, clientPa
 			l.Close()
 		}
 	}
+}
+
+// caRotation: the file named by `clients` is replaced (same path) between two loads of the same configuration, as a CA
+// rotation does. After the second load the site trusts what the file holds now.
+func caRotation(rep *kit.Report, dir string, ca *kit.CA, clientPair tls.Certificate, certs map[string][2]string) {
+	ca2 := kit.NewCA("verif CA 3")
+	_, _, pair2 := ca2.Leaf(997, "client3", nil, true)
+	rot := filepath.Join(dir, "rotating-ca.pem")
+	cf := fmt.Sprintf("a.test:8443 {\n\ttls %s %s {\n\t\tclients %s\n\t}\n\tstatus 204 /\n}\nb.a.test:8443 {\n\ttls %s %s\n\tstatus 204 /\n}\n", certs["a.test"][0], certs["a.test"][1], rot, certs["b.a.test"][0], certs["b.a.test"][1])
+	sock := filepath.Join(dir, "rotation.sock")
+	ln, err := net.Listen("unix", sock)
+	if err != nil {
+		rep.Broken("rotation: listen: %v", err)
+	}
+	defer ln.Close()
+	handshake := func(srv *httpserver.Server, pair *tls.Certificate) bool {
+		c1, err := net.Dial("unix", sock)
+		if err != nil {
+			rep.Broken("rotation: dial: %v", err)
+		}
+		c2, err := ln.Accept()
+		if err != nil {
+			rep.Broken("rotation: accept: %v", err)
+		}
+		defer c1.Close()
+		defer c2.Close()
+		sconn := tls.Server(c2, srv.Server.TLSConfig)
+		errc := make(chan error, 1)
+		go func() {
+			sconn.SetDeadline(time.Now().Add(20 * time.Second))
+			err := sconn.Handshake()
+			if err == nil {
+				_, err = sconn.Write([]byte("k"))
+			}
+			if err != nil {
+				c2.Close()
+			}
+			errc <- err
+		}()
+		cconn := tls.Client(c1, &tls.Config{ServerName: "a.test", InsecureSkipVerify: true, GetClientCertificate: func(*tls.CertificateRequestInfo) (*tls.Certificate, error) { return pair, nil }})
+		cconn.SetDeadline(time.Now().Add(20 * time.Second))
+		cerr := cconn.Handshake()
+		if cerr == nil {
+			_, cerr = cconn.Read(make([]byte, 1))
+		}
+		if cerr != nil {
+			c1.Close()
+		}
+		serr := <-errc
+		rep.Eval(1)
+		return cerr == nil && serr == nil
+	}
+	contents := [][]byte{ca.CertPEM, ca2.CertPEM, ca.CertPEM}
+	pairs := []*tls.Certificate{&clientPair, &pair2, &clientPair}
+	var prev *kit.Loaded
+	for round, content := range contents {
+		os.WriteFile(rot, content, 0o644)
+		l, err := kit.Load(cf, filepath.Join(dir, "Casketfile"))
+		if err != nil {
+			rep.Broken("rotation: load: %v", err)
+		}
+		if prev != nil {
+			prev.Close()
+		}
+		prev = l
+		srv := l.Server("8443")
+		for pi, name := range []string{"certificate of the CA the file holds now", "certificate of the CA the file held before"} {
+			pair := pairs[round]
+			want := true
+			if pi == 1 {
+				if round == 0 {
+					continue
+				}
+				pair, want = pairs[round-1], false
+			}
+			if got := handshake(srv, pair); got != want {
+				rep.Violation("C06/client-ca-file-replaced-between-loads", fmt.Sprintf("load number %d after the file named by `clients` was replaced: handshake with the %s: ok=%v, want %v", round+1, name, got, want), c06case{Casketfile: cf, SNI: "a.test"})
+			}
+		}
+		rep.Class("client-ca-rotation")
+	}
+	prev.Close()
 }
